@@ -95,21 +95,23 @@ Fixpoint split_star (G : gdata) (k : N) (fuel : nat) (os : list operand) : bool 
   end.
 
 (** ---- context-dependent literals: width by the (tracked) type ---- *)
-Definition lit_width (t : tracker) (type_id : N) : option N :=
+Inductive width := W32 | W64.
+
+Definition lit_width (t : tracker) (type_id : N) : option width :=
   match resolve t type_id with
   | Some (TInt size _) =>
-      if N.eqb size 8 || N.eqb size 16 || N.eqb size 32 then Some 32
-      else if N.eqb size 64 then Some 64 else None
+      if N.eqb size 8 || N.eqb size 16 || N.eqb size 32 then Some W32
+      else if N.eqb size 64 then Some W64 else None
   | Some (TFloat size) =>
-      if N.eqb size 16 || N.eqb size 32 then Some 32
-      else if N.eqb size 64 then Some 64 else None
-  | None => Some 32
+      if N.eqb size 16 || N.eqb size 32 then Some W32
+      else if N.eqb size 64 then Some W64 else None
+  | None => Some W32
   end.
 
 Definition literal_ok (t : tracker) (type_id : N) (o : operand) : bool :=
   match lit_width t type_id, o with
-  | Some 32, OLit32 v => v <? w32
-  | Some 64, OLit64 v => v <? w32 * w32
+  | Some W32, OLit32 v => v <? w32
+  | Some W64, OLit64 v => v <? w32 * w32
   | _, _ => false
   end.
 
